@@ -33,6 +33,17 @@ func (g *VGen) smallInt() uint64 {
 func (g *VGen) length(mn, mx uint64, honor bool) int {
 	r := g.r
 	l := vx.Pick(r, []int{0, 0, 1, 1, 2, 2, 3, 4, 5})
+	if (mn != 0 || mx != 0) && r.Chance(1, 2) {
+		// at and just beyond the bounds: min-1, min, max, max+1 (which side checks them depends on the validation mode)
+		var c []int
+		if mn != 0 {
+			c = append(c, int(mn)-1, int(mn))
+		}
+		if mx != 0 {
+			c = append(c, int(mx), int(mx)+1)
+		}
+		l = vx.Pick(r, c)
+	}
 	if honor {
 		if mx != 0 && uint64(l) > mx {
 			l = int(mx)
@@ -116,6 +127,9 @@ func (g *VGen) gen(n *Node) reflect.Value {
 		}
 	case KString, KBytes:
 		honor := g.honor || r.Chance(1, 2)
+		if n.Mn != 0 || n.Mx != 0 {
+			honor = g.honor && r.Chance(2, 3) // bounded strings / byte slices: out-of-bounds lengths in both streams
+		}
 		l := g.length(n.Mn, n.Mx, honor)
 		if r.Chance(1, 40) {
 			l = vx.Pick(r, []int{255, 256})
